@@ -2,6 +2,7 @@ import QuantemModel.Core.Proto
 import QuantemModel.Model.SaveFs
 import QuantemModel.Model.SaveFront
 import QuantemModel.Model.SaveInstall
+import QuantemModel.Model.SaveFrontExt
 import QuantemModel.Model.SerializeTrace
 import QuantemModel.Core.SerializeJson
 open Lean QuantemModel QuantemModel.Proto QuantemModel.SaveFs
@@ -101,6 +102,23 @@ def step (st : Unit) (j : Json) : Unit × Json :=
       match r with
       | .error e => pure (okJson (Json.mkObj [("raises", Json.str e.pyName), ("branch", Json.str (reprStr e))]))
       | .ok res => pure (okJson (Json.mkObj [("target", Json.str (String.ofList res.target)), ("zip", Json.bool res.zip)]))
+    else if op == "fullhistory" then
+      -- a history of COMPLETE save(path, mode, store, level) calls onto any targets (`runFull`,
+      -- `succeededFullIds` of Model/SaveFront(Ext).lean): filesystem + (target, id) of the calls that
+      -- returned normally, after every prefix; keys of the filesystem are the path strings themselves
+      let fs ← fsOfJson (← field j "fs")
+      let calls ← (← arrField j "calls").toList.mapM fun cj => do
+        let k : QuantemModel.SaveFront.FullCall := {
+          path := (← strField cj "path").toList, mode := (← strField cj "mode"), store := (← strField cj "store"),
+          level := (intField cj "level").toOption, id := (← natField cj "id"), staged := (← strField cj "staged"),
+          nTmp := (← natField cj "nTmp"), nWrites := (← natField cj "nWrites"),
+          fault := (match cj.getObjVal? "fault" with | .ok f => f.getNat?.toOption | .error _ => .none) }
+        pure k
+      let prefixes := (List.range (calls.length + 1)).map fun i => calls.take i
+      pure (okJson (Json.arr (prefixes.map fun ks => Json.mkObj [
+        ("fs", fsToJson (QuantemModel.SaveFront.runFull String.ofList fs ks)),
+        ("succeeded", Json.arr ((QuantemModel.SaveFront.succeededFullIds String.ofList fs ks).map fun (t, i) =>
+          Json.arr #[Json.str t, Json.num (JsonNumber.fromNat i)]).toArray)]).toArray))
     else
     let c : Cfg := { target := (← strField j "target"), staged := (← strField j "staged"), id := (← natField j "id") }
     let fs ← fsOfJson (← field j "fs")
